@@ -29,5 +29,8 @@ void harness(void) {
 	int r = http_hdr_val_get_ex(http_hdr, hdr_size, val_name, val_name_size, offset,
 	    val_ret, val_ret_size, offset_next);
 	VF_NATIVE_POST(r == 0 || r == ESPIPE, "return code");
+	if (r == 0) {
+		VF_CANARY("C20 hdr_get unbounded: the found path is reachable");
+	}
 	VF_CANARY("C20 hdr_get unbounded harness end");
 }
